@@ -702,21 +702,29 @@ def check_types(
                             lazy,
                             inplace,
                         )
-                    except errors.SchemaError as e:
-                        error_handler.collect_error(
-                            validation_type(
-                                errors.SchemaErrorReason.INVALID_TYPE
-                            ),
-                            errors.SchemaErrorReason.INVALID_TYPE,
-                            _parse_schema_error(
-                                "check_types",
-                                wrapped,
-                                schema,
-                                arg_value,
-                                e,
+                    except (errors.SchemaError, errors.SchemaErrors) as e:
+                        if (
+                            isinstance(e, errors.SchemaErrors)
+                            and len(annotation_model_pairs) == 1
+                        ):
+                            raise
+                        # with lazy=True the failures of one schema are raised
+                        # together: the next schema of a Union is still tried
+                        for schema_error in getattr(e, "schema_errors", [e]):
+                            error_handler.collect_error(
+                                validation_type(
+                                    errors.SchemaErrorReason.INVALID_TYPE
+                                ),
                                 errors.SchemaErrorReason.INVALID_TYPE,
-                            ),
-                        )
+                                _parse_schema_error(
+                                    "check_types",
+                                    wrapped,
+                                    schema,
+                                    arg_value,
+                                    schema_error,
+                                    errors.SchemaErrorReason.INVALID_TYPE,
+                                ),
+                            )
                         continue  # pylint: disable=unreachable
 
                 if data_container_type and config and config.to_format:
